@@ -95,7 +95,7 @@ class CodecLibs:
         g["fed"] = False
         H = S.handlers
         H[zstandard.get_frame_parameters] = self.frame_parameters
-        H[zstandard.ZstdDecompressor] = lambda S, *a, **k: SObj(None, kind="ZstdDctx")
+        H[zstandard.ZstdDecompressor] = self.zstd_dctx
         H["ZstdDctx.decompress"] = self.zstd_oneshot
         H["ZstdDctx.stream_reader"] = self.zstd_stream_reader
         H["ZstdReader.__enter__"] = lambda S, r: r
@@ -184,11 +184,31 @@ class CodecLibs:
         size = self.declared if self.declared is not None else self.unknown_sentinel
         return SObj(None, kind="FrameParameters", content_size=size)
 
-    def zstd_oneshot(self, S, ctx, data):
+    def zstd_dctx(self, S, dict_data=None, max_window_size=0, format=None):  # noqa: A002
+        # Every frame the property quantifies over (one-shot and streaming compressors, all levels: window logs up
+        # to 27) is decodable only by a decoder built with the library's own window limit (max_window_size=0 means
+        # 2**27) or a larger one; a smaller limit makes the library refuse valid frames ("Frame requires too much
+        # memory for decoding").
+        ok = (max_window_size == 0) if isinstance(max_window_size, int) else Or(eq(max_window_size, 0), max_window_size >= 2**27)
+        if isinstance(max_window_size, int) and max_window_size >= 2**27:
+            ok = True
+        S.oblige("lib.zstd.decoder_window_limit_admits_every_valid_frame", ok, kind="pre")
+        S.oblige("lib.zstd.decoder_has_no_dictionary_and_the_default_format", dict_data is None and format is None, kind="pre")
+        return SObj(None, kind="ZstdDctx")
+
+    def zstd_oneshot(self, S, ctx, data, max_output_size=0):
         S.oblige("lib.zstd.oneshot_given_the_input", data is self.data, kind="pre")
         if self.declared is None:
-            e = SExc(zstandard.ZstdError, ("could not determine content size in frame header",))
-            raise PyRaise(e)
+            # without a stored size the one-shot API needs an output bound; 0 means none.  With a bound it decodes
+            # into a buffer of that size and fails with the *library's* error when the stream does not fit.
+            bounded = (max_output_size != 0) if isinstance(max_output_size, int) else S.fork(Not(eq(max_output_size, 0)))
+            if not bounded:
+                e = SExc(zstandard.ZstdError, ("could not determine content size in frame header",))
+                raise PyRaise(e)
+            self.maybe_fail(zstandard.ZstdError, "decompression error")
+            if S.fork(blen(self.D) <= max_output_size):
+                return self.take_all()
+            raise PyRaise(SExc(zstandard.ZstdError, ("decompression error: did not decompress full frame",)))
         self.maybe_fail(zstandard.ZstdError, "decompression error")
         if self.bound_reads and self.cap is not None:
             S.oblige("O3.zstd.oneshot_allocates_no_more_than_the_cap", self.declared <= self.cap, kind="pre")
